@@ -399,9 +399,18 @@ pub unsafe extern "C" fn public_key_serialize(
     }
     let kp = kp.unwrap();
 
+    // the caller provides a 32 byte buffer: a key that does not fit (secp256r1
+    // public keys are 33 bytes long) is reported as an error instead of
+    // overrunning the buffer or aborting
+    let bytes = kp.0.to_bytes();
+    if bytes.len() != 32 {
+        update_last_error(Error::InvalidArgument);
+        return 0;
+    }
+
     let output_slice = std::slice::from_raw_parts_mut(buffer_ptr, 32);
 
-    output_slice.copy_from_slice(&kp.0.to_bytes()[..]);
+    output_slice.copy_from_slice(&bytes[..]);
     32
 }
 
@@ -674,7 +683,9 @@ pub unsafe extern "C" fn biscuit_sealed_size(biscuit: Option<&Biscuit>) -> usize
 
     let biscuit = biscuit.unwrap();
 
-    match biscuit.0.serialized_size() {
+    // the sealed token carries a signature instead of a private key: its size
+    // differs from the size of the unsealed token
+    match biscuit.0.seal().and_then(|sealed| sealed.serialized_size()) {
         Ok(sz) => sz,
         Err(e) => {
             update_last_error(Error::Biscuit(e));
@@ -732,15 +743,8 @@ pub unsafe extern "C" fn biscuit_serialize_sealed(
     match (*biscuit).0.seal() {
         Ok(b) => match b.to_vec() {
             Ok(v) => {
-                let size = match biscuit.0.serialized_size() {
-                    Ok(sz) => sz,
-                    Err(e) => {
-                        update_last_error(Error::Biscuit(e));
-                        return 0;
-                    }
-                };
-
-                let output_slice = std::slice::from_raw_parts_mut(buffer_ptr, size);
+                // the buffer is expected to have the size announced by biscuit_sealed_size
+                let output_slice = std::slice::from_raw_parts_mut(buffer_ptr, v.len());
 
                 output_slice.copy_from_slice(&v[..]);
                 v.len()
